@@ -115,7 +115,18 @@ EXPLANATION = (
     'matching local quantity, the k-medoids cost is the striped mean of the '
     'squares and the k-centers stopping radius is the striped max in MPI mode '
     'at every definition that reaches the loop test; plus the strict '
-    'running-minimum commit of the MPI k-centers iteration. Equality with the '
+    'running-minimum commit of the MPI k-centers iteration and the rules of '
+    'the serial distance update (triangle-inequality shortcut, plain branch, '
+    'candidate copy) applied to it. Fifth wave: (mode dispatch) the arm of a '
+    'mode test (mpi_mode / mpi.size() > 1 / == 1) taken with several ranks is '
+    'the one that communicates, and a world-size comparison decided by '
+    'size() >= 1 leaves no implementation dead; the app hands the reassembly '
+    'routines (rank-local field of the result, global lengths) in this order and '
+    'stores each reassembled field under its own name; a value bound on one '
+    'rank only is read only there; assertions and rejections evaluated on every '
+    'rank admit a rank that owns nothing, every drawable (owner, index), '
+    'global sum >= local term, equal lengths of the per-frame arrays; a '
+    'per-file option is striped exactly when it is given. Equality with the '
     'serial run for every world size is not decided.')
 
 
@@ -3140,6 +3151,8 @@ def d13_per_file_options(ck):
             mentions = [x for x in walk_local(fn) if isinstance(x, ast.Constant) and x.value == p]
             if ok_store:
                 ck.ok(rule, mod, ok_store[0], construct, '%s[%r] is replaced by its own stripe before the call' % (kw, p))
+                _d13_option_guard(ck, rule + '.guard', mod, fn, fi, q, ok_store[0], kw, p)
+                _d13_option_asserts(ck, rule + '.assert', mod, fn, fi, q, kw, p, striped)
             elif not mentions:
                 ck.bad(rule, mod, call, q, construct,
                        '%s compares len(%s) with len(%s) (one entry per file), and %s hands it `%s[mpi.rank()::mpi.size()]` but forwards '
@@ -3150,6 +3163,136 @@ def d13_per_file_options(ck):
             else:
                 ck.missing(rule, 'handling of the per-file option `%s` in %s not recognised' % (p, q))
     ck.floor(rule, n, 2, 'per-file options of load_as_concatenated reachable through **kwargs of load_trajectory_as_striped')
+
+
+def _option_test_value(t, kw, p, st):
+    """Value of a test on the keyword dictionary `kw` in the abstract state
+    st = (present, n): True / False, 'err' (evaluating it raises: KeyError on
+    kw[p] when the option is absent, len(None)), or None (not a test this rule
+    interprets).  `and` / `or` are evaluated left to right like Python does."""
+    present, n = st
+
+    def is_p(e):
+        return isinstance(e, ast.Constant) and e.value == p
+
+    def option(e):
+        """'sub' for kw[p], 'get' for kw.get(p) / kw.get(p, None)"""
+        if isinstance(e, ast.Subscript) and isinstance(e.value, ast.Name) and e.value.id == kw and is_p(e.slice):
+            return 'sub'
+        if isinstance(e, ast.Call) and isinstance(e.func, ast.Attribute) and e.func.attr == 'get' and isinstance(e.func.value, ast.Name) and \
+                e.func.value.id == kw and e.args and is_p(e.args[0]) and (len(e.args) == 1 or (isinstance(e.args[1], ast.Constant) and e.args[1].value is None)):
+            return 'get'
+        return None
+    if isinstance(t, ast.UnaryOp) and isinstance(t.op, ast.Not):
+        r = _option_test_value(t.operand, kw, p, st)
+        return (not r) if isinstance(r, bool) else r
+    if isinstance(t, ast.BoolOp):
+        stop_at = not isinstance(t.op, ast.And)
+        for v in t.values:
+            r = _option_test_value(v, kw, p, st)
+            if not isinstance(r, bool):
+                return r
+            if r == stop_at:
+                return stop_at
+        return not stop_at
+    if option(t) is not None:
+        if not present:
+            return 'err' if option(t) == 'sub' else False
+        return n > 0
+    if isinstance(t, ast.Compare) and len(t.ops) == 1:
+        l, op, r = t.left, t.ops[0], t.comparators[0]
+        if is_p(l) and isinstance(r, ast.Name) and r.id == kw and isinstance(op, (ast.In, ast.NotIn)):
+            return present == isinstance(op, ast.In)
+        if option(l) is not None and isinstance(r, ast.Constant) and r.value is None and isinstance(op, (ast.Is, ast.IsNot, ast.Eq, ast.NotEq)):
+            if not present and option(l) == 'sub':
+                return 'err'
+            return (not present) == isinstance(op, (ast.Is, ast.Eq))
+        c = Cmp(l, type(op), r)
+        k = const_value(c.rhs)
+        if isinstance(const_value(c.lhs), int) and not isinstance(const_value(c.lhs), bool):
+            c, k = c.flipped(), const_value(c.lhs)
+        if isinstance(c.lhs, ast.Call) and call_name(c.lhs) == 'len' and len(c.lhs.args) == 1 and option(c.lhs.args[0]) is not None and \
+                isinstance(k, int) and not isinstance(k, bool) and c.rel in _SWAP:
+            if not present:
+                return 'err'
+            return {'<': n < k, '<=': n <= k, '>': n > k, '>=': n >= k, '==': n == k, '!=': n != k}[c.rel]
+    return None
+
+
+def _d13_option_guard(ck, rule, mod, fn, fi, q, store, kw, p):
+    """The statement that replaces the per-file option kw[p] by its own
+    stripe reads kw[p]: it must not run when the option was not given
+    (KeyError on every rank), and it must run whenever the option has one
+    entry per file for two or more files (otherwise the callee receives all
+    entries next to the striped file list and rejects them).  Decided by
+    evaluating the tests around the store on the abstract states {absent,
+    given with 0 / 1 / 2 / 5 entries}; a test on anything else: no decision."""
+    tests = []
+    child, par = store, mod.parent.get(store)
+    while par is not None and par is not fn:
+        if isinstance(par, ast.If):
+            tests.append((expand(fi, par.test, par), any(child is x for x in par.body)))
+        elif isinstance(par, (ast.For, ast.While, ast.Try)):
+            return
+        child, par = par, mod.parent.get(par)
+    tests.reverse()
+    construct = 'condition under which %s[%r] is striped: %s' % (kw, p, ' and '.join(('%s' if pol else 'not (%s)') % u(t)[:80] for t, pol in tests) or 'always')
+    verdicts = {}
+    for st in ((False, 0), (True, 0), (True, 1), (True, 2), (True, 5)):
+        val = True
+        for t, pol in tests:
+            r = _option_test_value(t, kw, p, st)
+            if not isinstance(r, bool):
+                val = r
+                break
+            if r != pol:
+                val = False
+                break
+        verdicts[st] = val
+    if any(v is None for v in verdicts.values()):
+        ck.missing(rule, 'construct not recognised at %s: %s' % (mod.loc(store), construct))
+        return
+    absent = verdicts[(False, 0)]
+    many = [verdicts[(True, 2)], verdicts[(True, 5)]]
+    if absent is not False:
+        ck.bad(rule, mod, store, q, construct,
+               'when the option `%s` is not given, %s: %s raises KeyError on every rank for a call without the option' % (
+                   p, 'the test itself subscripts %s[%r]' % (kw, p) if absent == 'err' else 'the store still runs and reads %s[%r]' % (kw, p), q))
+    elif any(v is not True for v in many) or verdicts[(True, 0)] == 'err' or verdicts[(True, 1)] == 'err':
+        ck.bad(rule, mod, store, q, construct,
+               'when `%s` is given with one entry per file for two or more files the store does not run: the callee receives ALL entries next to its '
+               'own stripe of the files and rejects them (len(%s) != len(filenames)) on every rank' % (p, p))
+    else:
+        ck.ok(rule, mod, store, construct, 'skipped when the option is absent, executed whenever it has an entry per file (>= 2 files)')
+
+
+def _d13_option_asserts(ck, rule, mod, fn, fi, q, kw, p, striped):
+    """the loader's own assertion relating the number of entries of a
+    per-file option to the number of files must admit the consistent case
+    (one entry per file)."""
+    def role(e, here):
+        t = xn(fi, e, here)
+        if not (isinstance(t, ast.Call) and call_name(t) == 'len' and len(t.args) == 1):
+            return None
+        a = t.args[0]
+        if isinstance(a, ast.Name) and a.id in striped and fi.rd.defs_at(here, a.id) == {'PARAM'}:
+            return 'files'
+        for x in ast.walk(a):
+            if isinstance(x, ast.Subscript) and isinstance(x.value, ast.Name) and x.value.id == kw and const_value(x.slice) == p:
+                return 'option'
+            if isinstance(x, ast.Call) and isinstance(x.func, ast.Attribute) and x.func.attr == 'get' and isinstance(x.func.value, ast.Name) and \
+                    x.func.value.id == kw and x.args and const_value(x.args[0]) == p:
+                return 'option'
+        return None
+    for s in walk_local(fn):
+        if not isinstance(s, ast.Assert):
+            continue
+        for c, kind in _assert_atoms(s.test):
+            if kind != 'scalar' or c.rel not in _SWAP:
+                continue
+            if {role(c.lhs, s), role(c.rhs, s)} == {'files', 'option'}:
+                ck.check(c.rel in ('==', '<=', '>='), rule, mod, s, q, 'assertion relating the entries of the per-file option `%s` to the number of files' % p,
+                         'admits one entry per file', '`%s` rejects the consistent case len(%s) == len(files): the loader fails for every correct per-file option' % (u(s)[:100], p))
 
 
 def _ragged_valued(e):
@@ -3225,10 +3368,740 @@ def d10_every_rank(ck):
     ck.notes.setdefault('instance_floors', {})['C14.D10.reduction-assert'] = {'found': m, 'floor': 0}
 
 
+# ---------------------------------------------------------------------------
+# Fifth wave (survivors of the generic mutants): necessary conditions no rule
+# stated yet.  Each of them is located by role and decided three-valued.
+
+def _strip_not(t):
+    pol = True
+    while isinstance(t, ast.UnaryOp) and isinstance(t.op, ast.Not):
+        t, pol = t.operand, not pol
+    return t, pol
+
+
+def _mode_polarity(fi, test, here):
+    """True if the test being TRUE selects the MPI mode, False if it selects
+    the serial mode, None if the test is not (the negation of) a mode test
+    (`mpi_mode`, `mpi.size() > 1`, `mpi.size() == 1`, a flag bound to one)."""
+    t, pol = _strip_not(test)
+    if isinstance(t, ast.Name) and t.id != 'mpi_mode':
+        t2, pol2 = _strip_not(expand(fi, t, here))
+        t, pol = t2, pol == pol2
+    m = _mode_flag(t)
+    if m is None and isinstance(t, ast.Compare) and len(t.ops) == 1:
+        m = _mode_flag(norm(expand(fi, t, here)))
+    return None if m is None else (m == pol)
+
+
+def _terminates(stmts):
+    stmts = _strip_noise(stmts)
+    return bool(stmts) and isinstance(stmts[-1], (ast.Return, ast.Raise, ast.Continue, ast.Break))
+
+
+def _if_arms(mod, node):
+    """(statements that run only when the test holds, statements that run
+    only when it does not) of an `if`: an arm that ends in return / raise /
+    continue / break makes the statements that follow the `if` in its block
+    part of the other arm (guard-clause form)."""
+    body, orelse = list(node.body), list(node.orelse)
+    parent = mod.parent.get(node)
+    followers = []
+    for f in ('body', 'orelse', 'finalbody'):
+        blk = getattr(parent, f, None)
+        if isinstance(blk, list):
+            for k, x in enumerate(blk):
+                if x is node:
+                    followers = blk[k + 1:]
+    if _terminates(body) and not _terminates(orelse):
+        orelse = orelse + followers
+    elif _terminates(orelse) and not _terminates(body):
+        body = body + followers
+    return body, orelse
+
+
+def _arm_events(spmd, mod, fn, nodes):
+    """collective events of an arm: the calls (SPMD.events) and the
+    references to functions of the module that issue collectives
+    (`iteration = _kcenters_iteration_mpi`)."""
+    nodes = nodes if isinstance(nodes, list) else [nodes]
+    ev = list(spmd.events(mod, fn, nodes)) if nodes else []
+    for n0 in nodes:
+        for x in ast.walk(n0):
+            if isinstance(x, ast.Name) and isinstance(x.ctx, ast.Load) and x.id in mod.functions and spmd.has_coll.get((mod.rel, x.id)):
+                p = mod.parent.get(x)
+                if not (isinstance(p, ast.Call) and p.func is x):
+                    ev.append((x.id, 'ref'))
+            if isinstance(x, ast.Call) and not collective_name(x):
+                # `mpi.ops.f(...)` / `mpi.io.f(...)` in a module where the resolver does not follow `mpi` (bound twice in apps/cluster.py)
+                cn = (call_name(x) or '').split('.')
+                if len(cn) == 3 and cn[0] == 'mpi' and cn[1] in ('ops', 'io') and spmd.has_coll.get((OPS if cn[1] == 'ops' else IO, cn[2])):
+                    t = spmd.res.resolve_call(mod, x, None)
+                    if t is None or t.kind != 'func':
+                        ev.append((cn[2], '-'))
+    return ev
+
+
+def _only_rejects(stmts):
+    """the statements do nothing but reject (raise / assert / log), possibly
+    under further tests: a defensive check, not an implementation."""
+    for s in _strip_noise(stmts):
+        if isinstance(s, (ast.Raise, ast.Assert)):
+            continue
+        if isinstance(s, ast.Expr) and isinstance(s.value, ast.Call) and (call_name(s.value) or '').split('.')[0] in ('logger', 'logging', 'warnings', 'print'):
+            continue
+        if isinstance(s, ast.If) and _only_rejects(s.body) and _only_rejects(s.orelse):
+            continue
+        return False
+    return True
+
+
+def _size_atoms(fi, test, here):
+    """[(Cmp, range)] for the comparisons of the world size with an integer
+    constant inside a test."""
+    out = []
+    for x in ast.walk(test):
+        if isinstance(x, ast.Compare) and len(x.ops) == 1:
+            c = Cmp(x.left, type(x.ops[0]), x.comparators[0])
+            rg = int_range(fi, c, 'mpi.size()', here)
+            if rg is not None:
+                out.append((x, c, rg))
+    return out
+
+
+def _over_worlds(rg):
+    """truth of a world-size atom over the admissible sizes (>= 1): True /
+    False if it is constant there, 'split' if it separates a single rank from
+    every larger world, 'other' otherwise."""
+    if rg[0] == 'ne':
+        return True if rg[1] < 1 else ('split' if rg[1] == 1 else 'other')
+    lo, hi = rg
+    if hi is not None and hi < 1 or (lo is not None and hi is not None and hi < lo):
+        return False
+    if hi is None and (lo is None or lo <= 1):
+        return True
+    if (lo, hi) in ((2, None), (None, 1), (1, 1)) or (hi == 1 and lo is not None and lo <= 1):
+        return 'split'
+    return 'other'
+
+
+def d15_mode_dispatch(ck, spmd):
+    """The serial and the distributed implementation sit in the two arms of
+    a MODE TEST (`mpi_mode`, `mpi.size() > 1`, `mpi.size() == 1`).  Necessary:
+    (a) communication happens in the arm taken with several ranks - an `if`
+    or conditional expression on the mode whose SERIAL arm issues collectives
+    (or hands out a function that does) while its MPI arm issues none has the
+    arms exchanged: with several ranks nothing is exchanged or reassembled,
+    with one rank the distributed code runs; (b) a comparison of the world
+    size with a constant that is decided by size() >= 1 cannot select
+    anything: one arm - an implementation, not a mere rejection - never runs;
+    (c) a comparison that puts a world of two ranks on the side of the single
+    rank is not a mode test although its arms differ in their collectives."""
+    rule = 'C14.D1.mode-dispatch'
+    n = 0
+    for rel in (OPS, IO, KC, KM, HY, CU, APP):
+        mod = ck.repo.mod(rel)
+        for q, fn in mod.functions.items():
+            if '<locals>' in q:
+                continue
+            fi = None
+            for node in walk_local(fn):
+                if not isinstance(node, (ast.If, ast.IfExp)):
+                    continue
+                names = {call_name(c) for c in ast.walk(node.test) if isinstance(c, ast.Call)}
+                if not ('mpi.size' in names or isinstance(_strip_not(node.test)[0], ast.Name)):
+                    continue
+                fi = fi or finfo(mod, fn)
+                here = fi.stmt(node)
+                if here is None:
+                    continue
+                if isinstance(node, ast.If):
+                    t_arm, f_arm = _if_arms(mod, node)
+                else:
+                    t_arm, f_arm = [node.body], [node.orelse]
+                pol = _mode_polarity(fi, node.test, here)
+                atoms = _size_atoms(fi, node.test, here) if 'mpi.size' in names or pol is not None else []
+                if pol is None and not atoms:
+                    continue
+                ev_t, ev_f = _arm_events(spmd, mod, fn, t_arm), _arm_events(spmd, mod, fn, f_arm)
+                shown = 'if %s: collectives %s / otherwise %s' % (u(node.test)[:80], ev_t[:3], ev_f[:3])
+                if pol is not None:
+                    ev_mpi, ev_ser = (ev_t, ev_f) if pol else (ev_f, ev_t)
+                    if not ev_mpi and not ev_ser:
+                        continue
+                    n += 1
+                    ck.analysed(mod, fn)
+                    ck.check(bool(ev_mpi) or not ev_ser, rule, mod, node, q, 'mode test `%s`: MPI arm %s, serial arm %s' % (u(node.test)[:80], ev_mpi[:3], ev_ser[:3]),
+                             'the collectives sit in the arm taken with several ranks',
+                             'the arm of `%s` taken in SERIAL mode issues the collectives %s and the arm taken with several ranks issues none: the arms of the mode '
+                             'test are exchanged - with several ranks the rank-local pieces are never exchanged / reassembled (every rank goes on with its own '
+                             'part as if it were the whole), and a single rank runs the distributed code' % (u(node.test)[:80], ev_ser[:3]))
+                    continue
+                # a comparison of the world size with a constant that is not a mode test
+                t0, pol0 = _strip_not(node.test)
+                if not (isinstance(t0, ast.Compare) and len(atoms) == 1 and atoms[0][0] is t0):
+                    cj_t, cj_f = conjuncts(node.test, True), conjuncts(node.test, False)
+                    # a conjunct that never holds makes the test false; a disjunct that always holds makes it true
+                    truth = None
+                    for x, c, rg in atoms:
+                        w = _over_worlds(rg)
+                        if cj_t is not None and any(isinstance(y, Cmp) and y.lhs is c.lhs and y.rhs is c.rhs and y.op is c.op for y in cj_t) and w is False:
+                            truth = False
+                        if cj_f is not None and any(isinstance(y, Cmp) and y.lhs is c.lhs and y.rhs is c.rhs and y.op is _negop(c.op) for y in cj_f) and w is True:
+                            truth = True
+                    if truth is None:
+                        continue
+                else:
+                    w = _over_worlds(atoms[0][2])
+                    if w == 'split':
+                        continue
+                    if w == 'other':
+                        if ev_t != ev_f:
+                            n += 1
+                            ck.analysed(mod, fn)
+                            rg = atoms[0][2]
+                            v = ('near', 1, 'mpi.size() > 1') if _permits(rg, 1) == _permits(rg, 2) else ('far', 1, None)
+                            ck.decide(v, rule + '.world-size', mod, node, q, shown, '',
+                                      'the arms of `%s` differ in their collectives (%s / %s), but the test puts a world of two ranks on the side of the single '
+                                      'rank: the mode must be decided by mpi.size() > 1' % (u(node.test)[:80], ev_t[:3], ev_f[:3]))
+                        continue
+                    truth = (w == pol0)
+                dead = f_arm if truth else t_arm
+                if isinstance(node, ast.IfExp):
+                    real = bool(_arm_events(spmd, mod, fn, dead)) or ev_t != ev_f
+                else:
+                    real = not _only_rejects(dead)
+                n += 1
+                ck.analysed(mod, fn)
+                ck.check(not real, rule + '.world-size', mod, node, q, 'world-size test `%s` (always %s)' % (u(node.test)[:80], truth),
+                         'decided by mpi.size() >= 1; the arm that never runs is empty / a mere rejection',
+                         '`%s` is always %s (mpi.size() >= 1 in every world), so the %s arm of this test never runs although it holds an implementation '
+                         '(collectives there: %s; in the other arm: %s): the test cannot tell a single rank from several - one of the serial / distributed '
+                         'variants is dead and the other runs in both modes' % (u(node.test)[:80], truth, 'else' if truth else 'if',
+                                                                              _arm_events(spmd, mod, fn, dead)[:3], _arm_events(spmd, mod, fn, t_arm if truth else f_arm)[:3]))
+    ck.floor(rule, n, 6, 'mode tests / world-size tests with collectives in an arm')
+
+
+def _negop(op):
+    return Cmp(None, op, None).negated().op
+
+
+_REASSEMBLERS = {'assemble_striped_ragged_array': ('local_array', 'global_lengths'),
+                 'convert_local_indices': ('local_ctr_inds', 'global_lengths')}
+_RESULT_FIELDS = ('center_indices', 'distances', 'assignments')
+
+
+def d16_app_reassembly(ck):
+    """apps/cluster.py, the only caller of the reassembly routines: each of
+    them takes (<rank-local part of the clustering result>, <GLOBAL trajectory
+    lengths>), in this order.  The global lengths are located as the first
+    result of util.load_trjs_or_features (the loaders return (global lengths,
+    local data)), the local part as an attribute of the clusterer's result.
+    Exchanged arguments cut the lengths vector by the distances.  The field
+    that is reassembled is the field it is stored under in the new
+    ClusterResult."""
+    rule = 'C14.D2.owner-root.reassembly.app'
+    mod = ck.repo.mod(APP)
+    fn = mod.functions.get('main')
+    if fn is None:
+        ck.missing(rule, 'function main in %s' % APP)
+        return
+    fi = finfo(mod, fn)
+    ck.analysed(mod, fn)
+    L = None
+    for s in walk_local(fn):
+        if isinstance(s, ast.Assign) and len(s.targets) == 1 and isinstance(s.targets[0], (ast.Tuple, ast.List)) and len(s.targets[0].elts) == 2 and \
+                isinstance(s.value, ast.Call) and (call_name(s.value) or '').split('.')[-1] == 'load_trjs_or_features' and isinstance(s.targets[0].elts[0], ast.Name):
+            L = (s.targets[0].elts[0].id, s)
+    if L is None:
+        ck.missing(rule, 'main: `<global lengths>, <local data> = util.load_trjs_or_features(args)`')
+        return
+    L, lsite = L
+
+    def is_lengths(e, here):
+        t = xn(fi, e, here)
+        return isinstance(t, ast.Name) and t.id == L and fi.rd.defs_at(here, L) == {lsite}
+
+    def result_field(e, here):
+        """attribute name if the expression is <something>.<field of a clustering result>"""
+        t = xn(fi, e, here)
+        return t.attr if isinstance(t, ast.Attribute) and t.attr in _RESULT_FIELDS else None
+    n = 0
+    made = {}
+    for c in calls_in(fn):
+        nm = (call_name(c) or '').split('.')[-1]
+        if nm not in _REASSEMBLERS:
+            continue
+        here = fi.stmt(c)
+        a0, a1 = arg(c, 0, _REASSEMBLERS[nm][0]), arg(c, 1, _REASSEMBLERS[nm][1])
+        if a0 is None or a1 is None or here is None:
+            ck.missing(rule, 'main: arguments of %s' % u(c)[:100])
+            continue
+        n += 1
+        f0 = result_field(a0, here)
+        if is_lengths(a1, here) and not is_lengths(a0, here) and L not in names_loaded(xn(fi, a0, here)):
+            ck.ok(rule, mod, c, u(c)[:120], '(%s, global lengths)' % ('result.' + f0 if f0 else 'rank-local part'))
+            if f0 is not None:
+                made[id(c)] = (f0, nm)
+        elif is_lengths(a0, here) and result_field(a1, here) is not None:
+            ck.bad(rule, mod, c, 'main', '%s(<global lengths>, <rank-local %s>)' % (nm, result_field(a1, here)),
+                   '%s takes (%s, %s); here the global trajectory lengths `%s` are passed as the rank-local array and the rank-local `%s` as the lengths: '
+                   'every rank broadcasts the lengths vector and cuts it by the values of its %s' % (nm, _REASSEMBLERS[nm][0], _REASSEMBLERS[nm][1], L, u(a1), result_field(a1, here)))
+        else:
+            v = ('near', 1, '%s(<local part>, %s)' % (nm, L)) if closed_over(xn(fi, a1, here), {L}) and closed_over(xn(fi, a0, here), {L}) else ('far', 1, None)
+            ck.decide(v, rule, mod, c, 'main', u(c)[:120], '', 'the second argument of %s must be the global trajectory lengths `%s` (first result of load_trjs_or_features)' % (nm, L))
+    ck.floor(rule, n, 3, 'calls of the reassembly routines in apps/cluster.py main')
+    # the reassembled field goes back under its own name
+    want = {'center_indices': 'convert_local_indices', 'distances': 'assemble_striped_ragged_array', 'assignments': 'assemble_striped_ragged_array'}
+    for c in calls_in(fn):
+        if (call_name(c) or '').split('.')[-1] != 'ClusterResult':
+            continue
+        here = fi.stmt(c)
+        for k in c.keywords:
+            if k.arg not in want:
+                continue
+            src, _ = value_call(fi, k.value, here)
+            if src is None or id(src) not in made:
+                continue
+            f0, nm = made[id(src)]
+            ck.check(f0 == k.arg and nm == want[k.arg], rule + '.field', mod, c, 'main', 'ClusterResult(%s=<reassembled %s>)' % (k.arg, f0),
+                     'the field is reassembled by the routine for its kind and stored under its own name',
+                     'the global `%s` of the result is built by %s from the rank-local `%s`: the wrong field / the wrong reassembly routine' % (k.arg, nm, f0))
+
+
+def d17_root_only_value(ck):
+    """A local bound only on ONE rank (`if mpi.rank() == 0: keys = ...`) is
+    unbound everywhere else.  A statement that re-binds the name from a
+    collective (`keys = bcast(keys if mpi.rank() == 0 else None)`) may read
+    it only under a rank condition that implies the one it was bound under;
+    otherwise the reading rank raises UnboundLocalError before it reaches the
+    collective the others wait in.  (Complements definite-assignment, which
+    treats the re-binding statement itself as a definition.)"""
+    from . import extra
+    from ..cfg import header_uses, stmt_defs
+    rule = 'C14.D10.every-rank.root-only-value'
+
+    def rank_cond(fi, test, pol, here):
+        """('eq', k) / ('ne', k) for a test on mpi.rank() alone, else None"""
+        cj = conjuncts(test, pol)
+        if cj is None or len(cj) != 1:
+            return None
+        c = cj[0]
+        if isinstance(c, Cmp):
+            rg = int_range(fi, c, 'mpi.rank()', here)
+            if rg is None:
+                return None
+            if rg[0] == 'ne':
+                return ('ne', rg[1])
+            if rg[0] is not None and rg[0] == rg[1]:
+                return ('eq', rg[0])
+            if rg == (None, 0):
+                return ('eq', 0)      # rank() <= 0
+            if rg == (1, None):
+                return ('ne', 0)      # rank() >= 1
+            return None
+        if c[0] == 'expr' and xt(fi, c[1], here) == 'mpi.rank()':
+            return ('ne', 0) if c[2] else ('eq', 0)
+        return None
+
+    def implies(a, b):
+        if a == b:
+            return True
+        return a[0] == 'eq' and b[0] == 'ne' and a[1] != b[1]
+    n = 0
+    for rel in (IO, OPS):
+        mod = ck.repo.mod(rel)
+        for q, fn in mod.functions.items():
+            if '.' in q:
+                continue
+            fi = finfo(mod, fn)
+            for s in fi.cfg.nodes:
+                if s in (ENTRY, EXIT) or isinstance(s, Assume):
+                    continue
+                own = set(stmt_defs(s))
+                for nm in header_uses(s):
+                    if nm.id not in own or nm.id not in fi.rd.locals or not fi.rd.possibly_unbound(s, nm.id):
+                        continue
+                    defs = [d for d in fi.cfg.nodes if d not in (ENTRY, EXIT) and not isinstance(d, Assume) and d is not s and nm.id in stmt_defs(d)]
+                    infeasible = [a for a in fi.cfg.nodes if isinstance(a, Assume) and extra._tautology(a.test) is (not a.polarity)]
+                    if fi.cfg.path(ENTRY, s, avoiding=defs + infeasible) is None:
+                        continue
+                    # the rank condition of the read: the arm of a conditional expression, or a dominating branch
+                    use = None
+                    g = extra._guard_of_use(mod, nm, s)
+                    known = True
+                    if g is not None:
+                        use = rank_cond(fi, g[0], g[1], s)
+                        known = use is not None
+                    else:
+                        for a in fi.cfg.dom.get(s, ()):
+                            if isinstance(a, Assume) and 'mpi.rank' in u(a.test):
+                                use = rank_cond(fi, a.test, a.polarity, a.owner)
+                                known = use is not None
+                    conds = []
+                    for d in defs:
+                        child, p = d, mod.parent.get(d)
+                        dc = 'always'
+                        while p is not None and p is not fn:
+                            if isinstance(p, ast.If) and 'mpi.rank' in u(p.test):
+                                dc = rank_cond(fi, p.test, any(child is x for x in p.body), p)
+                                break
+                            child, p = p, mod.parent.get(p)
+                        conds.append((dc, d))
+                    if not conds or any(dc == 'always' for dc, _ in conds):
+                        continue        # not bound under a rank test: a question of plain definite assignment
+                    n += 1
+                    ck.analysed(mod, fn)
+                    construct = 'read of the rank-conditionally bound `%s` in the statement that re-binds it: %s' % (nm.id, u(s)[:100])
+                    if not known or any(dc is None for dc, _ in conds):
+                        ck.missing(rule, 'construct not recognised at %s: %s (rank condition of the read / of a binding not understood)' % (mod.loc(s), construct))
+                    elif use is not None and any(implies(use, dc) for dc, _ in conds):
+                        ck.ok(rule, mod, s, construct, 'read only on the rank(s) that bound it (%s %s)' % use)
+                    else:
+                        ck.bad(rule, mod, s, q, construct,
+                               '`%s` is bound only under %s, but this statement reads it %s: on those ranks the name is unbound - UnboundLocalError before '
+                               'the collective, the other ranks wait forever (with a single rank: the call fails outright)' % (
+                                   nm.id, ' / '.join('mpi.rank() %s %s' % ('==' if dc[0] == 'eq' else '!=', dc[1]) for dc, _ in conds if dc != 'always') or 'some paths',
+                                   'on every rank' if use is None else 'where mpi.rank() %s %s' % ('==' if use[0] == 'eq' else '!=', use[1])))
+    ck.notes.setdefault('instance_floors', {})[rule] = {'found': n, 'floor': 0}
+
+
+def _assert_atoms(test):
+    """[(Cmp, 'scalar' | 'all')] asserted by an assertion: its conjuncts, and
+    the elementwise comparison inside np.all(...) / (...).all() / all(...)."""
+    out = []
+    for c in conjuncts(test, True) or []:
+        if isinstance(c, Cmp):
+            out.append((c, 'scalar'))
+        elif c[0] == 'expr' and c[2] and isinstance(c[1], ast.Call):
+            e = c[1]
+            inner = None
+            if call_name(e) in ('np.all', 'all', 'numpy.all') and len(e.args) == 1:
+                inner = e.args[0]
+            elif isinstance(e.func, ast.Attribute) and e.func.attr == 'all' and not e.args:
+                inner = e.func.value
+            if isinstance(inner, ast.Compare) and len(inner.ops) == 1:
+                out.append((Cmp(inner.left, type(inner.ops[0]), inner.comparators[0]), 'all'))
+    return out
+
+
+def d18_asserts_admit_empty_rank(ck):
+    """An assertion inside a striped operation / loader is evaluated on EVERY
+    rank, also on one that owns nothing.  It may therefore not demand a
+    positive length of a rank-local array, of the all-gathered per-rank
+    lengths, or of the own stripe x[rank::size] (unless the path has
+    established that every rank owns something): it fails on the empty rank
+    only - before the next collective - for data the property admits."""
+    rule = 'C14.D10.every-rank.empty-local.assert'
+    n = 0
+    scope = [(rel, q, LOCAL_PARAMS[(rel, q)]) for rel, q in EMPTY_LOCAL_SCOPE] + \
+            [(IO, q, []) for q in ('load_h5_as_striped', 'load_npy_as_striped', 'load_trajectory_as_striped')]
+    for rel, q, locs in scope:
+        mod = ck.repo.mod(rel)
+        fn = mod.functions.get(q)
+        if fn is None:
+            continue
+        fi = finfo(mod, fn)
+        # names holding the all-gathered lengths of a rank-local array
+        counts = {}
+        for P in locs:
+            forms = [f % {'P': P} for f in ('np.array(mpi.comm.allgather(len(%(P)s)))', 'mpi.comm.allgather(len(%(P)s))', 'np.asarray(mpi.comm.allgather(len(%(P)s)))',
+                                          'np.array(mpi.comm.allgather(%(P)s.shape[0]))', 'mpi.comm.allgather(%(P)s.shape[0])')]
+            for s in walk_local(fn):
+                if isinstance(s, ast.Assign) and len(s.targets) == 1 and isinstance(s.targets[0], ast.Name) and \
+                        _classify(norm(s.value), forms)[0] == 'match' and len(assigns_to(fn, s.targets[0].id)) == 1:
+                    counts[s.targets[0].id] = P
+        for s in walk_local(fn):
+            if not isinstance(s, ast.Assert):
+                continue
+            for c, kind in _assert_atoms(s.test):
+                hit = None
+                for P in locs:
+                    if fi.rd.defs_at(s, P) != {'PARAM'}:
+                        continue
+                    for a in ('len(%s)' % P, C('%s.size' % P), C('%s.shape[0]' % P)):
+                        rg = int_range(fi, c, a, s) if kind == 'scalar' else None
+                        if rg is not None:
+                            hit = (rg, 'the length of the rank-local array `%s`' % P, _guarded_nonempty(fi, mod, s.test, P, fn))
+                for N, P in counts.items():
+                    for a in ((N,) if kind == 'all' else (C('%s.min()' % N), 'min(%s)' % N)):
+                        rg = int_range(fi, c, a, s)
+                        if rg is not None:
+                            hit = (rg, 'every entry of `%s`, the all-gathered lengths of the rank-local `%s`' % (N, P), False)
+                if kind == 'scalar':
+                    for side in (c.lhs, c.rhs):
+                        if isinstance(side, ast.Call) and call_name(side) == 'len' and len(side.args) == 1:
+                            os_ = _own_stripe(fi, side.args[0], s)
+                            if os_ is not None:
+                                rg = int_range(fi, c, xt(fi, side, s), s)
+                                if rg is not None:
+                                    hit = (rg, 'the length of the own stripe, %s' % os_[1], _every_rank_owns_one(fi, s, os_[0], os_[1]))
+                if hit is None:
+                    continue
+                n += 1
+                ck.analysed(mod, fn)
+                rg, what, guarded = hit
+                ck.check(_permits(rg, 0) or guarded, rule, mod, s, q, 'assertion on %s' % what.split(',')[0],
+                         'the assertion admits a rank that owns nothing',
+                         '`%s` demands %s to be positive, but a rank may own nothing (more ranks than trajectories; a cluster without a member on this rank): '
+                         'there the value is 0, the assertion fails on that rank only and the others wait in the next collective' % (u(s)[:100], what))
+        # a rejection decided on the TOTAL of the all-gathered lengths may only fire when that total is 0
+        for s in walk_local(fn):
+            if not isinstance(s, ast.Raise) or not counts:
+                continue
+            for c, o in path_atoms(fi, s):
+                for N, P in counts.items():
+                    for a in ('sum(%s)' % N, C('%s.sum()' % N), C('np.sum(%s)' % N)):
+                        rg = int_range(fi, c, a, o)
+                        if rg is None:
+                            continue
+                        n += 1
+                        ck.analysed(mod, fn)
+                        ck.check(not any(_permits(rg, k) for k in (1, 2, 10 ** 9)), rule.replace('.assert', '.reject'), mod, o, q,
+                                 'rejection decided on the total of the all-gathered lengths `%s`' % N, 'raises only when no rank holds an element',
+                                 'the `raise` at line %d is reached when `%r` holds, i.e. also for a positive total of `%s` (the lengths of `%s` over all ranks): '
+                                 '%s rejects a non-empty striped array' % (getattr(s, 'lineno', 0), c, N, P, q))
+    ck.notes.setdefault('instance_floors', {})[rule] = {'found': n, 'floor': 0}
+
+
+def d19_randind_index_assert(ck):
+    """randind returns (owner rank, position in the owner's array): any
+    position >= 0 and any rank >= 0 can be drawn.  An assertion on a
+    component of the returned pair must admit all of them."""
+    rule = 'C14.D4.pair-orientation.randind-range'
+    mod = ck.repo.mod(OPS)
+    fr = mod.functions.get('randind')
+    if fr is None:
+        return
+    fi = finfo(mod, fr)
+    comps = {}
+    for r in returns_of(fr):
+        val = xn(fi, r.value, r) if r.value is not None else None
+        if isinstance(val, ast.Tuple) and len(val.elts) == 2:
+            comps[u(val.elts[0])] = 'owner rank'
+            comps[u(val.elts[1])] = 'owner-local index'
+    n = 0
+    for s in walk_local(fr):
+        if not isinstance(s, ast.Assert):
+            continue
+        for c, kind in _assert_atoms(s.test):
+            if kind != 'scalar':
+                continue
+            for a, what in comps.items():
+                rg = int_range(fi, c, a, s)
+                if rg is None:
+                    continue
+                n += 1
+                ok = all(_permits(rg, k) for k in (0, 1, 2, 10 ** 9))
+                ck.check(ok, rule, mod, s, 'randind', 'assertion on the %s of the returned pair' % what, 'admits every value that can be drawn',
+                         '`%s` rejects valid values of the %s (any integer >= 0 can be drawn): randind fails for a correct draw' % (u(s)[:100], what))
+    ck.notes.setdefault('instance_floors', {})[rule] = {'found': n, 'floor': 0}
+
+
+def d20_reduction_assert_direction(ck):
+    """After G = allreduce(L, SUM) with L >= 0 by construction (a length, a
+    count) on every rank, the only ordering between G and L that holds in
+    every world is G >= L (equality when the other ranks are empty).  An
+    assertion that orders them otherwise, or that bounds G from above by a
+    constant, fails on a correct result."""
+    from . import extra
+    rule = 'C14.D10.reduction-assert.direction'
+    mod = ck.repo.mod(OPS)
+    n = 0
+    for q, fn in mod.functions.items():
+        if '.' in q:
+            continue
+        fi = finfo(mod, fn)
+        for s in walk_local(fn):
+            if not isinstance(s, ast.Assert):
+                continue
+            for c, kind in _assert_atoms(s.test):
+                if kind != 'scalar' or c.as_less() is None and c.rel not in ('==', '!='):
+                    continue
+                for g, other, flip in ((c.lhs, c.rhs, False), (c.rhs, c.lhs, True)):
+                    if not isinstance(g, ast.Name):
+                        continue
+                    call, cst = value_call(fi, g, s)
+                    if call is None or collective_name(call) != 'allreduce' or not call.args:
+                        continue
+                    op = arg(call, 1, 'op')
+                    if op is not None and not u(op).endswith('SUM'):
+                        continue
+                    term = call.args[0]
+                    if not extra._nonnegative_by_construction(fi, term):
+                        continue
+                    rel = _SWAP[c.rel] if flip else c.rel          # G rel other
+                    if xt(fi, other, s) == xt(fi, term, cst):
+                        n += 1
+                        ck.analysed(mod, fn)
+                        ck.check(rel == '>=', rule, mod, s, q, 'assertion ordering the SUM-reduced `%s` against its local term' % g.id,
+                                 'global sum of non-negative terms >= local term',
+                                 '`%s` asserts `%s %s %s`, but %s is the sum over all ranks of the non-negative `%s`: only `>=` holds in every world '
+                                 '(`==` when the other ranks own nothing, `>` otherwise) - the assertion fails on a correct result' % (
+                                     u(s)[:80], g.id, rel, u(other), g.id, u(term)))
+                    elif isinstance(const_value(other), int) and not isinstance(const_value(other), bool):
+                        rg = int_range(fi, c, g.id, s)
+                        if rg is not None:
+                            n += 1
+                            ck.analysed(mod, fn)
+                            ck.check(all(_permits(rg, k) for k in (1, 2, 10 ** 9)), rule, mod, s, q, 'assertion bounding the SUM-reduced `%s` by a constant' % g.id,
+                                     'admits every positive total', '`%s` rejects positive totals of `%s` over the ranks' % (u(s)[:80], u(term)))
+    ck.notes.setdefault('instance_floors', {})[rule] = {'found': n, 'floor': 0}
+
+
+def d21_centre_representation(ck):
+    """The list of centres handed to the MPI iteration holds either arrays or
+    one-frame trajectories (what distribute_frame returns for a trajectory).
+    Stacking it into ONE array - <metric>(np.array(centers), y) - is defined
+    for arrays only: where the path has established `hasattr(centers[0],
+    'xyz')` the stacked form hands the metric an array of Trajectory objects
+    instead of coordinates (and the per-centre form is the one for
+    trajectories)."""
+    rule = 'C14.D9.centre-dists.representation'
+    mod = ck.repo.mod(KC)
+    n = 0
+    for q in ('_kcenters_iteration_mpi', '_kcenters_iteration'):
+        fn = mod.functions.get(q)
+        if fn is None or len(params(fn)) < 2 or 'centers' not in params(fn):
+            continue
+        fi = finfo(mod, fn)
+        DM, CS = params(fn)[1], 'centers'
+        stacked = {C(f % CS) for f in ('np.array(%s)', 'np.asarray(%s)', 'np.stack(%s)', '%s.copy()')} | {'np.array(%s)' % CS, CS}
+        for c in calls_in(fn):
+            if not (isinstance(c.func, ast.Name) and c.func.id == DM and c.args):
+                continue
+            here = fi.stmt(c)
+            if here is None or fi.rd.defs_at(here, DM) != {'PARAM'} or u(norm(c.args[0])) not in stacked:
+                continue
+            n += 1
+            ck.analysed(mod, fn)
+            is_traj = [pol for cnd, o in path_atoms(fi, here) if isinstance(cnd, tuple) and cnd[0] == 'expr' and
+                       xt(fi, cnd[1], o) == "hasattr(%s[0], 'xyz')" % CS for pol in [cnd[2]]]
+            ck.check(not (is_traj and is_traj[-1]), rule, mod, c, q, '%s(<all centres stacked into one array>, ...)' % DM,
+                     'the stacked form is used for centres that are arrays',
+                     '`%s` stacks the list `%s` into one array on the path where `hasattr(%s[0], \'xyz\')` holds, i.e. for TRAJECTORY centres: the metric '
+                     'receives an object array of Trajectory objects instead of coordinates (the per-centre form belongs here, the stacked form to the '
+                     'array arm): the triangle-inequality shortcut fails / prunes with wrong centre distances for trajectory data' % (u(c)[:80], CS, CS))
+    ck.notes.setdefault('instance_floors', {})[rule] = {'found': n, 'floor': 0}
+
+
+# functions whose rank-local parameters are PER-FRAME arrays of one and the same block of frames (the data of
+# this rank, the distance and the label of each of its frames): they are combined elementwise
+PER_FRAME = [(KC, '_kcenters_iteration_mpi'), (KC, '_kcenters_iteration'), (KM, '_kmedoids_pam_update'), (KM, '_kmedoids_iterations')]
+
+
+def d22_aligned_lengths(ck):
+    """The rank-local data block, its distances and its labels have one
+    entry per frame of this rank.  The only relation between two of their
+    lengths that holds for every admissible call is equality: an assertion
+    that states another one (`!=`, `<`, `>`) rejects every consistent input -
+    on every rank, at the first iteration."""
+    rule = 'C14.D10.every-rank.aligned-lengths'
+    n = 0
+    for rel, q in PER_FRAME:
+        mod = ck.repo.mod(rel)
+        fn = mod.functions.get(q)
+        if fn is None:
+            continue
+        fi = finfo(mod, fn)
+        group = [p for p in LOCAL_PARAMS[(rel, q)] if p in params(fn)]
+
+        def length_of(e, here):
+            t = xn(fi, e, here)
+            for p in group:
+                if fi.rd.defs_at(here, p) == {'PARAM'} and u(t) in ('len(%s)' % p, C('%s.shape[0]' % p)):
+                    return p
+            return None
+        for s in walk_local(fn):
+            if not isinstance(s, ast.Assert):
+                continue
+            for c, kind in _assert_atoms(s.test):
+                if kind != 'scalar' or c.rel not in _SWAP:
+                    continue
+                a, b = length_of(c.lhs, s), length_of(c.rhs, s)
+                if a is None or b is None or a == b:
+                    continue
+                n += 1
+                ck.analysed(mod, fn)
+                ck.check(c.rel in ('==', '<=', '>='), rule, mod, s, q, 'assertion relating the lengths of the per-frame arrays `%s` and `%s`' % (a, b), 'one entry per frame: equal lengths',
+                         '`%s`: `%s` and `%s` hold one entry per frame of this rank, so their lengths are EQUAL for every consistent call; `%s` rejects exactly those '
+                         '(or admits inconsistent ones): the function fails on every rank' % (u(s)[:100], a, b, c.rel))
+    ck.notes.setdefault('instance_floors', {})[rule] = {'found': n, 'floor': 0}
+
+
+def d23_asserts_admit_consistent_case(ck):
+    """Two more assertions whose consistent case follows from the ROLES of
+    their operands: (1) a candidate array that is committed elementwise into
+    a per-frame array (`D[m] = X[m]`) has the number of dimensions of that
+    array, so an assertion relating the two ndims must admit equality; (2) a
+    list whose elements are unpacked into (owner rank, index) pairs has
+    elements of length 2, so an assertion on len(<list>[0]) must admit 2."""
+    rule = 'C14.D10.every-rank.assert-consistent'
+    n = 0
+    for rel, q in PER_FRAME:
+        mod = ck.repo.mod(rel)
+        fn = mod.functions.get(q)
+        if fn is None:
+            continue
+        fi = finfo(mod, fn)
+        group = [p for p in LOCAL_PARAMS[(rel, q)] if p in params(fn)]
+        committed = set()
+        for st, t in subscript_stores(fn):
+            if isinstance(st, ast.Assign) and isinstance(t.value, ast.Name) and t.value.id in group and isinstance(st.value, ast.Subscript) and \
+                    isinstance(st.value.value, ast.Name) and u(st.value.slice) == u(t.slice):
+                committed.add(frozenset((st.value.value.id, t.value.id)))
+
+        def ndim_of(e):
+            m = _classify(norm(e), ['len(_X.shape)', '_X.ndim', 'np.ndim(_X)'])
+            return m[1]['_X'].id if m[0] == 'match' and isinstance(m[1]['_X'], ast.Name) else None
+        for s in walk_local(fn):
+            if not isinstance(s, ast.Assert):
+                continue
+            for c, kind in _assert_atoms(s.test):
+                if kind != 'scalar' or c.rel not in _SWAP:
+                    continue
+                a, b = ndim_of(c.lhs), ndim_of(c.rhs)
+                if a is None or b is None or frozenset((a, b)) not in committed:
+                    continue
+                n += 1
+                ck.analysed(mod, fn)
+                ck.check(c.rel in ('==', '<=', '>='), rule, mod, s, q, 'assertion relating the dimensions of `%s` and `%s` (one is committed elementwise into the other)' % (a, b),
+                         'admits equal dimensions',
+                         '`%s`: `%s` and `%s` are combined elementwise by the commit under the mask of their comparison, so both have the same number of dimensions for every '
+                         'working metric; `%s` rejects exactly that case: the iteration fails on every rank' % (u(s)[:100], *sorted((a, b)), c.rel))
+    mod = ck.repo.mod(KM)
+    for q, fn in mod.functions.items():
+        if '.' in q:
+            continue
+        binders = pair_binders(mod, fn)
+        lists = {it.id for _, _, it in binders if isinstance(it, ast.Name)}
+        if not lists:
+            continue
+        fi = finfo(mod, fn)
+        for s in walk_local(fn):
+            if not isinstance(s, ast.Assert):
+                continue
+            for c, kind in _assert_atoms(s.test):
+                if kind != 'scalar':
+                    continue
+                for X in sorted(lists):
+                    rg = int_range(fi, c, 'len(%s[0])' % X, s)
+                    if rg is None:
+                        continue
+                    n += 1
+                    ck.analysed(mod, fn)
+                    ck.check(_permits(rg, 2), rule, mod, s, q, 'assertion on the length of the elements of `%s` (unpacked into (owner, index) pairs)' % X,
+                             'admits pairs', '`%s`: the elements of `%s` are unpacked into two names (owner rank, index), i.e. have length 2, which this assertion rejects: '
+                             'the MPI branch fails for every list of centre pairs' % (u(s)[:100], X))
+    ck.notes.setdefault('instance_floors', {})[rule] = {'found': n, 'floor': 0}
+
+
 def check(ck):
     res, ea = shared(ck.repo)
     spmd = SPMD(ck.repo, res, None)
     nu_of = d1_matching(ck, spmd)
+    d15_mode_dispatch(ck, spmd)
+    d16_app_reassembly(ck)
+    d17_root_only_value(ck)
     d2_roots(ck)
     d3_striping(ck)
     d4_pairs(ck)
@@ -3239,10 +4112,19 @@ def check(ck):
     d8_reductions(ck)
     kc = ck.repo.mod(KC)
     check_running_min_commit(ck, 'C14.D9.commit', kc, '_kcenters_iteration_mpi', True, 'len-before-append')
-    from .C02 import d1_farthest
+    from .C02 import d1_farthest, d5_triangle
     d1_farthest(ck)
+    # the distance update of the MPI iteration (triangle-inequality shortcut, plain branch, candidate copy)
+    # is the serial one applied to the rank-local block: same rule as for C02
+    d5_triangle(ck)
+    d21_centre_representation(ck)
+    d22_aligned_lengths(ck)
+    d23_asserts_admit_consistent_case(ck)
     d10_every_rank(ck)
     d11_empty_local(ck)
+    d18_asserts_admit_empty_rank(ck)
+    d19_randind_index_assert(ck)
+    d20_reduction_assert_direction(ck)
     d12_empty_stripe(ck)
     d13_per_file_options(ck)
     d14_ragged_where(ck)
